@@ -91,7 +91,7 @@ MCNext ==
   \/ /\ env.nsus < MaxSusOps
      /\ \E x \in Suspenders : \/ ~S.sus[x].inst /\ SusInstall(x)
                               \/ S.sus[x].inst /\ SusRemove(x)
-                              \/ \E v \in {0, 1} : v # S.sigv[x] /\ SigPut(SigOf[x], v)
+                              \/ \E v \in (IF x \in SusBand THEN {0, 1, 2} ELSE {0, 1}) : v # S.sigv[x] /\ SigPut(SigOf[x], v)
      /\ Bump("nsus")
   \/ ((\E f \in S.relq : SusRelease(f)) \/ SusCb \/ SusLand \/ SusRet) /\ UNCHANGED env
   \/ env.ncall < MaxCalls /\ Call(NoP, RecordIntr) /\ Bump("ncall")
